@@ -13,6 +13,7 @@
    context objects constructed before entry and reused; retention of gradients after backward.
 """
 import ast
+import os
 import itertools
 import sys
 
@@ -124,33 +125,57 @@ class ProtocolCase:
 def tensor_targets():
     ts = []
 
-    # ---- Tensor.__init__
-    def setup_init(ex):
-        s = TM.base_state()
-        s.glob["F"] = Opaque("F")
-        s.glob["default_type__"] = Opaque("default_type")
-        me = Obj("Tensor")
-        data = Obj("ndarray")
-        s.attrs(data)["dtype"] = Opaque("dtype")
-        rg = z3.Bool("requires_grad")
-        isfp = z3.Bool("is_floating_point")
-        ex.attr_models[("Tensor", "is_floating_point")] = lambda ex_, st, o: isfp
-        children = (Obj("Tensor"),)
-        ctx = {"me": me, "rg": rg, "isfp": isfp, "G": s.glob["gradient__"], "children": children}
-        return s, ([me, data], {"children": children, "requires_grad": rg}), ctx
+    # ---- Tensor.__init__ : dtypes are symbolic codes, ISFP an uninterpreted predicate on them; astype() yields an array of the requested dtype
+    ISFP = z3.Function("is_floating_dtype", z3.IntSort(), z3.BoolSort())
+    for dtype_given in (False, True):
+        def setup_init(ex, dtype_given=dtype_given):
+            s = TM.base_state()
+            s.glob["F"] = Opaque("F")
+            s.glob["default_type__"] = Opaque("default_type")
+            me = Obj("Tensor")
+            data = Obj("ndarray")
+            d0 = z3.Int("dtype_of_data")
+            s.attrs(data)["dtype"] = d0
+            dp = z3.Int("dtype_argument") if dtype_given else None
+            rg = z3.Bool("requires_grad")
 
-    def ens_init(ctx, s, out):
-        should_raise = z3.And(ctx["rg"], ctx["G"], z3.Not(ctx["isfp"]))
-        if isinstance(out, Raised):
-            return [("raises_only_for_non_float_requiring_grad", should_raise)]
-        a = s.attrs(ctx["me"])
-        return [("accepts_unless_non_float_requiring_grad", z3.Not(should_raise)),
-                ("requires_grad_is_flag_and_mode", a.get("_requires_grad") == z3.And(ctx["rg"], ctx["G"])),
-                ("fresh_tensor_has_no_grad", a.get("_grad", 0) is None),
-                ("fresh_tensor_has_no_grad_fn", a.get("_grad_fn", 0) is None),
-                ("retain_flag_off", a.get("_retain_grad") is False)]
-    ex_init = lambda: _tensor_executor(extra_havoc={"lazy_import", "Tensor.copy_from", "*.astype"})
-    ts.append(Target("synapgrad.tensor.Tensor.__init__", TENSOR_PY, "Tensor.__init__", setup_init, ens_init, executor=ex_init))
+            def isfp_of(ex_, st, o):
+                d = st.attrs(o)["data"]
+                return ISFP(st.attrs(d)["dtype"])
+            ex.attr_models[("Tensor", "is_floating_point")] = isfp_of
+
+            def utils_isfp(ex_, st, args, kw):
+                a = args[0]
+                if isinstance(a, Obj) and a.cls == "Tensor":
+                    a = st.attrs(a)["data"]
+                return ISFP(st.attrs(a)["dtype"])
+            ex.models["utils.is_floating_point"] = utils_isfp
+
+            def astype(ex_, st, args, kw):
+                n = Obj("ndarray")
+                st.attrs(n)["dtype"] = args[1]
+                return n
+            ex.models["ndarray.astype"] = astype
+            children = (Obj("Tensor"),)
+            ctx = {"me": me, "rg": rg, "G": s.glob["gradient__"], "children": children, "d0": d0, "dp": dp, "ISFP": ISFP}
+            return s, ([me, data], {"children": children, "requires_grad": rg, "dtype": dp}), ctx
+
+        def ens_init(ctx, s, out):
+            final = ctx["d0"] if ctx["dp"] is None else ctx["dp"]            # astype(dtype) when it differs, else already equal
+            should_raise = z3.And(ctx["rg"], ctx["G"], z3.Not(ctx["ISFP"](final)))
+            if isinstance(out, Raised):
+                return [("raises_only_for_non_float_requiring_grad", should_raise)]
+            a = s.attrs(ctx["me"])
+            stored = a.get("data")
+            return [("accepts_unless_non_float_requiring_grad", z3.Not(should_raise)),
+                    ("stored_data_has_the_requested_dtype", isinstance(stored, Obj) and s.attrs(stored)["dtype"] == final),
+                    ("requires_grad_is_flag_and_mode", a.get("_requires_grad") == z3.And(ctx["rg"], ctx["G"])),
+                    ("fresh_tensor_has_no_grad", a.get("_grad", 0) is None),
+                    ("fresh_tensor_has_no_grad_fn", a.get("_grad_fn", 0) is None),
+                    ("retain_flag_off", a.get("_retain_grad") is False)]
+        ex_init = lambda: _tensor_executor(extra_havoc={"lazy_import", "Tensor.copy_from"})
+        ts.append(Target("synapgrad.tensor.Tensor.__init__[dtype argument %s]" % ("given" if dtype_given else "omitted"), TENSOR_PY, "Tensor.__init__", setup_init, ens_init,
+                         executor=ex_init, key={"dtype_argument": dtype_given}))
 
     # ---- requires_grad setter
     def setup_set(ex):
@@ -237,7 +262,7 @@ NON_OPERANDS = {"running_mean", "running_var"}
 def wrapper_targets():
     ts = []
     for relpath, mod in (("synapgrad/functional.py", "synapgrad.functional"), ("synapgrad/nn/functional.py", "synapgrad.nn.functional")):
-        src = open("/repo/" + relpath).read()
+        src = open(os.path.join(os.environ.get("VERIF_REPO", "/repo"), relpath)).read()
         tree = ast.parse(src)
         for fn in tree.body:
             if not isinstance(fn, ast.FunctionDef) or fn.name.startswith("_"):
@@ -487,6 +512,22 @@ def runtime_part(run, tier):
             run.violation("synapgrad.tensor.Tensor.requires_grad.only_float", "setter accepted requires_grad=True on a non-floating tensor", key={"dtype": np.dtype(dt).name}, replay={})
         except RuntimeError:
             pass
+    # the floating-point rule applies to the dtype the tensor ENDS UP with (dtype= argument, constructor helpers)
+    import synapgrad as sg
+    for name, mk, is_float in [("Tensor(float data, dtype=int32)", lambda: Tensor(np.array([1.5, 2.5]), requires_grad=True, dtype=np.int32), False),
+                               ("Tensor(int data, dtype=float32)", lambda: Tensor(np.array([1, 2]), requires_grad=True, dtype=np.float32), True),
+                               ("ones(dtype=int32)", lambda: sg.ones(3, dtype=np.int32, requires_grad=True), False), ("zeros(dtype=float64)", lambda: sg.zeros(3, dtype=np.float64, requires_grad=True), True),
+                               ("tensor(list, dtype=int64)", lambda: sg.tensor([1.5], dtype=np.int64, requires_grad=True), False), ("arange(dtype=float64)", lambda: sg.arange(3, dtype=np.float64, requires_grad=True), True)]:
+        run.rt(("dtype-arg-requires-grad", name))
+        try:
+            t = mk()
+            ok = is_float and t.requires_grad and t.is_floating_point
+            what = "accepted, dtype %s requires_grad=%s" % (t.dtype, t.requires_grad)
+        except RuntimeError:
+            ok = not is_float
+            what = "raised RuntimeError"
+        if not ok:
+            run.violation("synapgrad.tensor.Tensor.__init__.only_float_requires_grad", "%s: %s" % (name, what), key={"constructor": name, "clause": "final dtype decides"}, replay={})
     # toggling requires_grad on non-leaves is refused
     a = Tensor(np.array([1.0]), requires_grad=True)
     y = a * 2.0
